@@ -5,7 +5,7 @@
    execution after every action; `no_err err_Cxx m` = the monitor reported no error of this property's class;
    `no_raise ls` = no request ended in an exception. *)
 From Coq Require Import ZArith List Bool.
-From CS Require RevConv RevBridge4 RevolveRun Refuted.
+From CS Require RevConv RevBridge4 RevolveRun Refuted DiskRun DiskBridge3.
 From CS Require Import Actions NAdvance Multistage Exec Sched RunFacts Projections BasicInv MultistageRun AllocTotal TLBridge MixBridge.
 Import ListNotations.
 Open Scope Z_scope.
@@ -71,4 +71,22 @@ Proof.
   exists o0, m, ls. auto using mon_ok_no_err.
 Qed.
 Print Assumptions C08_mixed.
+
+(* DiskRevolve and PeriodicDiskRevolve: every N, every RAM count >= 1, every cost vector; budgets RAM = snapshots_in_ram, DISK unbounded.
+   The monitor's only possible verdict other than "no error" is E_leftover at the final EndReverse (class C04: the open finding
+   D8, see C04_disk_revolve_refuted), so no error of THIS property's class is ever reported, and nothing raises *)
+Theorem C08_disk_revolve : forall (N ram disk uf ub wd rd : Z) (k : nat), 1 <= N -> 1 <= ram ->
+  exists o0 m ls, run_case (PRev RevConv.KDiskRevolve N ram disk uf ub wd rd) (DiskRun.disk_xparams N ram) (repeat Next k) = Ok (o0, m, ls) /\ no_err err_C08 m /\ no_raise ls.
+Proof.
+  intros N ram disk uf ub wd rd k H1 H2. destruct (DiskRun.disk_revolve_run N ram disk uf ub wd rd k H1 H2) as (o0 & m & ls & E & Hl & Hm).
+  exists o0, m, ls. split; [exact E|]. split; [apply (DiskRun.leftover_no_err _ m Hm); intros []|exact Hl].
+Qed.
+Print Assumptions C08_disk_revolve.
+Theorem C08_periodic_disk_revolve : forall (N ram disk uf ub wd rd : Z) (k : nat), 1 <= N -> 1 <= ram ->
+  exists o0 m ls, run_case (PRev RevConv.KPeriodic N ram disk uf ub wd rd) (DiskRun.disk_xparams N ram) (repeat Next k) = Ok (o0, m, ls) /\ no_err err_C08 m /\ no_raise ls.
+Proof.
+  intros N ram disk uf ub wd rd k H1 H2. destruct (DiskRun.periodic_run N ram disk uf ub wd rd k H1 H2) as (o0 & m & ls & E & Hl & Hm).
+  exists o0, m, ls. split; [exact E|]. split; [apply (DiskRun.leftover_no_err _ m Hm); intros []|exact Hl].
+Qed.
+Print Assumptions C08_periodic_disk_revolve.
 
